@@ -14,13 +14,13 @@ from ..world import World
 ID = "C14"
 DELTA = 0.1
 EPS = 1e-6
-STARTUPS = ["complete", "complete-slow", "complete-late", "failed", "failed-cleanup", "failed-swallow",
+STARTUPS = ["complete", "complete-slow", "complete-late", "failed", "failed-cleanup", "failed-swallow", "failed-other-error",
             "raise-first", "raise-after-recv", "hang", "return-early", "unknown-message"]
 SHUTDOWNS = ["complete", "complete-slow", "failed", "raise", "hang", "returned-before", "unknown-message",
              "crash-while-serving"]
 # what the property says must follow each startup script
 EXPECT = {"complete": "serve", "complete-slow": "serve", "complete-late": "abort-timeout", "failed": "abort-failed",
-          "failed-cleanup": "abort-failed", "failed-swallow": "abort-failed", "raise-first": "serve",
+          "failed-cleanup": "abort-failed", "failed-swallow": "abort-failed", "failed-other-error": "abort-failed", "raise-first": "serve",
           "raise-after-recv": "serve", "hang": "abort-timeout", "return-early": "unjudged", "unknown-message": "serve"}
 
 
@@ -90,6 +90,8 @@ def _lifespan_program(startup: str, shutdown: str, d_start: float, d_shut: float
                 await host._sleep(0.2)  # e.g. closing what was opened so far, then re-raising
             if startup == "failed-swallow":
                 return
+            if startup == "failed-other-error":
+                raise ValueError("cleanup after the failed startup went wrong too")
             if error is not None:
                 raise error
             return
